@@ -25,22 +25,22 @@ def claim(pid, category, technique, text, note, ref):
 
 
 claim("C06", "translation_validation",
-      "independent LALR(1) construction from feel.y compared cell-by-cell with the committed tables; precedence-conflict cells judged against the FEEL specification's binding levels; HIR rule->action->AST-node table extraction",
-      "Static translation validation of a generated artefact: every (state, look-ahead) action and every goto of the committed tables is compared with an independently constructed LALR(1) automaton of feel.y (all 282 states, ~17k cells, exhaustive), every precedence-resolved conflict is judged against the specification's operator levels, token numbering and the rule->action->AstNode mapping (incl. operand order) are extracted from the type-checked HIR. This is the right level because the parser's tree shape for every operator pair is decided by exactly these finite tables.",
-      "Trusts: rustc's HIR/type check, bison's documented yyparse table semantics as re-implemented in Parser::parse (the driver loop itself is not verified), the operator levels written in tables/feel_precedence.json. Not decided: lexing of literals/escapes, white space and comments, same-level comparison chains the specification leaves unordered.",
+      "independent LALR(1) construction from feel.y compared cell-by-cell with the committed tables; precedence-conflict cells judged against the FEEL specification's binding levels; HIR rule->action->AST-node table extraction; guard-exactness rule on the driver's packed-table accesses (MIR facts)",
+      "Static translation validation of a generated artefact: every (state, look-ahead) action and every goto of the committed tables is compared with an independently constructed LALR(1) automaton of feel.y (all 282 states, ~17k cells, exhaustive), every precedence-resolved conflict is judged against the specification's operator levels, token numbering and the rule->action->AstNode mapping (incl. operand order) are extracted from the type-checked HIR. The driver itself is checked where it decides which table cell is consulted: at all four accesses to the packed tables the dominating comparisons must impose exactly bison's guard 0 <= index <= YY_LAST (a narrower guard silently drops cells). This is the right level because the parser's tree shape for every operator pair is decided by exactly these finite tables.",
+      "Trusts: rustc's HIR/type check, bison's documented yyparse table semantics as re-implemented in Parser::parse (the rest of the driver loop - default actions, error branch - is not verified), the operator levels written in tables/feel_precedence.json. Not decided: lexing of literals/escapes, white space and comments, same-level comparison chains the specification leaves unordered.",
       "DESIGN.md §3 C06, §2.4 G8")
 
 
 claim("C08", "other",
-      "HIR decision-table extraction of the two 73-arm built-in dispatchers and Bif::from_str; sibling cross-check named vs positional wrapper (core callee sets, argument provenance) against the specification's parameter order",
-      "Static rule checking over the type-checked HIR: exhaustive dispatch without wildcard, name<->variant bijection, for each of the 73 built-ins the core functions reached by the named wrapper are a subset of those reached by the positional wrapper, optional arguments are nulled alike, and every named parameter lands on the core argument index its positional counterpart uses (specification parameter order as oracle). Decides the structural clauses only; the values computed by the ~40 core functions are not decided.",
+      "HIR decision-table extraction of the two 73-arm built-in dispatchers and Bif::from_str; sibling cross-check named vs positional wrapper (core callee sets, argument provenance) against the specification's parameter order; units-of-measure dataflow (UTF-8 bytes vs characters) over the MIR of the string built-ins",
+      "Static rule checking over the type-checked HIR: exhaustive dispatch without wildcard, name<->variant bijection, for each of the 73 built-ins the core functions reached by the named wrapper are a subset of those reached by the positional wrapper, optional arguments are nulled alike, and every named parameter lands on the core argument index its positional counterpart uses (specification parameter order as oracle). For the 'positions count Unicode characters' clause a units analysis over bifs::core forbids adding/subtracting a byte offset (str::len, find) and a character count (chars().count()), slicing at a character position and stepping chars() by a byte amount. Decides the structural clauses only; the values computed by the ~40 core functions are not decided.",
       "Trusts rustc's name resolution (HIR callee paths) and tables/bif_signatures.json (DMN 1.3 parameter names, with the repository-pinned deviation for 'list contains'). Not decided: results of core functions for any argument tuple (positions, Unicode, boundaries).",
       "DESIGN.md §3 C08, §2.4 G6")
 
 
 claim("C09", "other",
-      "symbolic partial evaluation of the type-checked HIR over all operand-kind combinations: table symmetry (transpose), mirror-sibling agreement, Kleene truth tables, between/in-range/unary-test pairing",
-      "Static table extraction: eval_ternary_equality, build_eq/nq/lt/gt/le/ge/and/or/between, eval_in_range and the four eval_in_unary_* are folded over every ordered pair (triple) of Value kinds with symbolic payloads; the equality table is compared with its transpose (all 21x21 cells), `!=` with the negation of `=`, `<`/`>` and `<=`/`>=` cell-by-cell with their mirror, and/or with the three-valued truth tables on a 5-symbol alphabet, between with the closed range, open ends with strict primitives. Exhaustive over kinds, which is exactly the finite part of the property; the primitive comparisons on payloads are outside.",
+      "symbolic partial evaluation of the type-checked HIR over all operand-kind combinations: table symmetry (transpose), mirror-sibling agreement, Kleene truth tables, between/in-range/unary-test pairing; exhaustive evaluation of the temporal comparison helpers over the finite set of orderings; size-test and number-comparison consistency rules",
+      "Static table extraction: eval_ternary_equality, build_eq/nq/lt/gt/le/ge/and/or/between, eval_in_range and the four eval_in_unary_* are folded over every ordered pair (triple) of Value kinds with symbolic payloads; the equality table is compared with its transpose (all 21x21 cells), `!=` with the negation of `=`, `<`/`>` and `<=`/`>=` cell-by-cell with their mirror, and/or with the three-valued truth tables on a 5-symbol alphabet, between with the closed range, open ends with strict primitives. Dates, times and date-times are compared through one compare() -> Option<Ordering>; equal/before/after/between only look at its answer, so they are decided exhaustively over {Less, Equal, Greater, None} x the two interval flags (84 combinations, symbolic evaluation with compare() abstracted). Equality of two lists/contexts may answer true only after the sizes were compared (symmetry); FeelNumber's `=` and ordering must both go through decQuadCompare(self, rhs). Exhaustive over kinds and orderings, which is exactly the finite part of the property; the primitive comparisons on payloads are outside.",
       "Trusts rustc's HIR and the partial evaluator (engine/hireval.py: unknown conditions fork, loops are summarised by their early returns). Assumes PartialOrd/PartialEq of the payload types are coherent; the value-level laws (exactly one of <,=,> on concrete numbers/strings/dates) are not decided.",
       "DESIGN.md §3 C09, §2.4 G6")
 
@@ -53,22 +53,22 @@ claim("C16", "other",
 
 
 claim("C17", "other",
-      "HIR provenance/path rules over every Workspace method: co-mutation of the three indexes, single-object key provenance (or a dominating lookup-and-compare tie), evaluator invalidation on every mutating path, fall-through of deploy's Err arm",
-      "Static rule checking of the structural conditions under which the list and the two indexes cannot drift apart: each public operation mutates all three together on one path with keys of one Definitions object, clears the evaluator map on every mutating path, deploy clears first and keeps going after a failed build. These are necessary conditions of the history property; the set of models left by an arbitrary operation sequence is not computed (that would be model checking).",
+      "HIR provenance/path rules over every Workspace method: co-mutation of the three indexes, single-object key provenance (or a dominating lookup-and-compare tie), evaluator invalidation on every mutating path, fall-through of deploy's Err arm; MIR forward dataflow: on every returning path the indexes touched are none or all three",
+      "Static rule checking of the structural conditions under which the list and the two indexes cannot drift apart: each public operation mutates all three together on one path with keys of one Definitions object, clears the evaluator map on every mutating path, deploy clears first and keeps going after a failed build; a forward dataflow over each operation's MIR (callee summaries for self methods) shows that no path returns with only some of the three indexes inserted into / removed from (an early return between the updates). These are necessary conditions of the history property; the set of models left by an arbitrary operation sequence is not computed (that would be model checking).",
       "Trusts rustc's HIR and engine/hirflow.py (private helpers are inlined into their callers, closures contribute their free variables). Not decided: the history property itself, error texts, ModelEvaluator::new.",
       "DESIGN.md §3 C17")
 
 
 claim("C18", "other",
-      "taint (must-pass-through-escaper) rule over every Jsonify impl reachable from a response and over hand-built bodies; route -> workspace-operation must-reach table over the HIR call graph; lock-result handling lint",
-      "Static rule checking: (1) in Value/Values/FeelContext::jsonify and in the evaluate handler, every piece of text that reaches the JSON output is a constant, a scalar, a jsonify() result or the result of a structurally recognised JSON string escaper (for the kinds the property lists: string, number, boolean, null, list, context and context keys); (2) each of the seven definitions/evaluate routes reaches exactly the Workspace operation it stands for; (3) all other bodies come from serde (Json<..>, ResultDto::to_string); (4) RwLock results are matched, never unwrapped. Decides the injection/escaping and endpoint-mapping clauses; TCK DTO round-trips and request-sequence equivalence are not decided.",
+      "taint (must-pass-through-escaper) rule over every Jsonify impl reachable from a response and over hand-built bodies; route -> workspace-operation must-reach table over the HIR call graph; lock-result handling lint; writer/reader agreement of the TCK xsd-tag tables; single-shared-state rule for the actix worker factory",
+      "Static rule checking: (1) in Value/Values/FeelContext::jsonify and in the evaluate handler, every piece of text that reaches the JSON output is a constant, a scalar, a jsonify() result or the result of a structurally recognised JSON string escaper (for the kinds the property lists: string, number, boolean, null, list, context and context keys); (2) each of the seven definitions/evaluate routes reaches exactly the Workspace operation it stands for; (3) all other bodies come from serde (Json<..>, ResultDto::to_string); (4) RwLock results are matched, never unwrapped; (5) both Value->DTO writers give a kind the same xsd tag and the DTO->Value reader builds that kind from that tag; (6) the RwLock<Workspace> is created once outside the closure handed to HttpServer::new, so all workers share it. Decides the injection/escaping and endpoint-mapping clauses; value-level TCK round-trips and request-sequence equivalence are not decided.",
       "Trusts rustc's HIR, serde_json/actix for the bodies they build, and the structural escaper recogniser in props/c18.py (a function matching '\"' and '\\' and control characters to escape sequences). FeelNumber::jsonify is audited as numeric text (C07's domain). The no-panic-under-write-lock clause is decided under C12.",
       "DESIGN.md §3 C18")
 
 
 claim("C20", "proof",
-      "auto-trait (Send/Sync) facts from the compiler plus compile-fail witnesses; unsafe/static/extern inventories; MIR pointer-provenance rule at every FFI call; call-graph reachability of lock writers from the evaluation entry points; clang AST inventory of C globals",
-      "Proof by obligations: Rust's type system excludes data races for safe code over Send/Sync types, so the property reduces to closing the holes. Obligations (all must discharge): the shared types are Send+Sync and Scope is Send but !Sync (compiler's own trait resolution, re-witnessed by compile_fail doc-tests with compiling twins in the thorough tier); every user-written unsafe block is FFI glue in dec.rs; at each of the 75 *mut FFI arguments the pointer provably designates a local of the calling frame or an exclusive &mut parameter (so the decNumber context and result buffers are private per call); none of the 104 statics is mutable or interior-mutable beyond its once-cell; from the evaluation entry points (call graph with dyn-Fn calls resolved by signature) no RwLock::write, Mutex, atomic write, thread-local or foreign RefCell mutation is reachable, the only acquisitions are reads, which neither exclude each other nor poison; the five compiled C files define no mutable object with static storage (3 audited read-only exceptions). All interleavings are covered because the argument is schedule-independent.",
+      "auto-trait (Send/Sync) facts from the compiler plus compile-fail witnesses; unsafe/static/extern inventories; MIR pointer-provenance rule at every FFI call; call-graph reachability of lock writers from the evaluation entry points; clang AST inventory of C globals; capture analysis of the shared evaluator closures",
+      "Proof by obligations: Rust's type system excludes data races for safe code over Send/Sync types, so the property reduces to closing the holes. Obligations (all must discharge): the shared types are Send+Sync and Scope is Send but !Sync (compiler's own trait resolution, re-witnessed by compile_fail doc-tests with compiling twins in the thorough tier); every user-written unsafe block is FFI glue in dec.rs; at each of the 75 *mut FFI arguments the pointer provably designates a local of the calling frame or an exclusive &mut parameter (so the decNumber context and result buffers are private per call); none of the 104 statics is mutable or interior-mutable beyond its once-cell; from the evaluation entry points (call graph with dyn-Fn calls resolved by signature) no RwLock::write, Mutex, atomic write, thread-local or foreign RefCell mutation is reachable, the only acquisitions are reads, which neither exclude each other nor poison; the ~140 prepared evaluator closures that all threads share capture no cell (OnceLock, Mutex, RefCell, atomic) other than the read-only registries, so one call cannot leave a value for another; the five compiled C files define no mutable object with static storage (3 audited read-only exceptions). All interleavings are covered because the argument is schedule-independent.",
       "Trusted base: rustc's type checker/auto traits, soundness of std/regex/chrono/lazy_static, that decNumber writes only through its result and context arguments, the signature-based resolution of dyn calls, and the audited entries (regex::Regex statics, uarrone/allnines/mfctop in C). Deadlock freedom relies on evaluation taking read locks only; the build phase (ModelEvaluator::new) is single-threaded and is analysed under C12.",
       "DESIGN.md §3 C20, §2.4 G5/G9")
 
@@ -81,40 +81,40 @@ claim("C13", "other",
 
 
 claim("C02", "other",
-      "clang-AST facts of the bundled decNumber sources vs IEEE 754-2008 decimal128; Rust<->C agreement of constants, extern prototypes and #[repr(C)] layouts; MIR provenance of every FFI context argument; HIR operator->primitive table; must-pass-through (finite sanitizer) rule on evaluation-reachable number constructors",
-      "Static rule checking of what the property says can change without touching an asserted value: the context decContextDefault installs for DEC_INIT_DECQUAD is 34 digits / emax 6144 / emin -6143 / half-even / no traps / clamp (clang AST of the switch), the Rust constants, all 32 extern declarations and the three #[repr(C)] layouts agree with the C headers under build.rs's defines (lsu holds 34 digits), each of the 32 FFI context arguments is a fresh clone of the lazily initialised default context and no Rust code writes a context field, each of 20 operators/methods reaches exactly the decNumber primitive the General Decimal Arithmetic specification names with operands in order and the named rounding constant, and every evaluation-reachable FeelNumber constructor fed by a primitive that can produce Infinity/NaN must test dec_is_finite first. The last rule reports 7 genuine defects (Add, AddAssign, Sub, Mul, Div, exp, round), each confirmed with a FEEL expression and listed in known_findings.json; the repair changes operator signatures across the evaluator and is not a small patch.",
+      "clang-AST facts of the bundled decNumber sources vs IEEE 754-2008 decimal128; Rust<->C agreement of constants, extern prototypes and #[repr(C)] layouts; MIR provenance of every FFI context argument; HIR operator->primitive table; must-pass-through (finite sanitizer) rule on evaluation-reachable number constructors; divisor-non-zero path rule on every FeelNumber division",
+      "Static rule checking of what the property says can change without touching an asserted value: the context decContextDefault installs for DEC_INIT_DECQUAD is 34 digits / emax 6144 / emin -6143 / half-even / no traps / clamp (clang AST of the switch), the Rust constants, all 32 extern declarations and the three #[repr(C)] layouts agree with the C headers under build.rs's defines (lsu holds 34 digits), each of the 32 FFI context arguments is a fresh clone of the lazily initialised default context and no Rust code writes a context field, each of 20 operators/methods reaches exactly the decNumber primitive the General Decimal Arithmetic specification names with operands in order and the named rounding constant, and every evaluation-reachable FeelNumber constructor fed by a primitive that can produce Infinity/NaN must test dec_is_finite first. Every FeelNumber division reachable from evaluation (6 sites) has a divisor that is compared with zero on the path, is a non-zero constant or the length of a non-empty collection (2 audited: stddev). The sanitizer rule reports 7 genuine defects (Add, AddAssign, Sub, Mul, Div, exp, round), each confirmed with a FEEL expression and listed in known_findings.json; the repair changes operator signatures across the evaluator and is not a small patch.",
       "Trusts clang's AST, rustc's HIR/MIR/layout computation and the correctness of decNumber's C arithmetic; the 34-digit correctly-rounded results themselves are not decided. Alignment of DecQuad (1) vs decQuad (8) is recorded as a note. fract() is an audited exception (|x - trunc x| < 1).",
       "DESIGN.md §3 C02, §2.4 G9/G7")
 
 
 claim("C03", "other",
-      "HIR decision-table extraction of the hit-policy dispatch and of each evaluation method's (collection order, result shape, default path) compared with a specification table; attribute/marker string tables; MIR flag-provenance rule for rule matching",
-      "Static table extraction: each of the 11 policy/aggregator combinations has its own arm and reaches one method; the helper that filters on `matches` without sorting is the rule-order collection and the one that sorts by position in the output values is the priority collection (classified from their bodies); each method must use the collection, return the shape (first of the collection / list / count / sum / min / max) and the default output on the empty-match path that DMN 8.2.8/8.2.11 prescribe, with the emptiness test dominating every other result; hitPolicy/aggregation attribute strings (XML) and the one-letter markers (text tables) map to the specified variants, defaults included; the rule-match flag is initialised true once and cleared only under a failed is_true() of an input entry inside the loop. Which rules match for given inputs, the priority comparison itself and output values are not decided.",
-      "Trusts rustc's HIR/MIR and tables/hit_policy.json (DMN 1.3 8.2.8, 8.2.11). UNIQUE's and ANY's conflict checks (several matches -> null) are seen as null results but their conditions are not judged.",
+      "HIR decision-table extraction of the hit-policy dispatch and of each evaluation method's (collection order, result shape, default path) compared with a specification table; attribute/marker string tables; MIR flag-provenance rule for rule matching; path-condition rules for ANY's agreement test and the lexicographic priority comparator",
+      "Static table extraction: each of the 11 policy/aggregator combinations has its own arm and reaches one method; the helper that filters on `matches` without sorting is the rule-order collection and the one that sorts by position in the output values is the priority collection (classified from their bodies); each method must use the collection, return the shape (first of the collection / list / count / sum / min / max) and the default output on the empty-match path that DMN 8.2.8/8.2.11 prescribe, with the emptiness test dominating every other result; hitPolicy/aggregation attribute strings (XML) and the one-letter markers (text tables) map to the specified variants, defaults included; the rule-match flag is initialised true once and cleared only under a failed is_true() of an input entry inside the loop. ANY's null-on-disagreement compares complete rule results (all output components); the priority comparator leaves its component loop only on a strict difference and ends with Equal (ties resolved by later components). Which rules match for given inputs and output values are not decided.",
+      "Trusts rustc's HIR/MIR and tables/hit_policy.json (DMN 1.3 8.2.8, 8.2.11). UNIQUE's conflict check (several matches -> null) is seen as a null result but its condition is not judged. Emptiness tests are recognised in the idioms is_empty / len comparisons / first()-last() / slice patterns.",
       "DESIGN.md §3 C03")
 
 
 claim("C11", "other",
-      "HIR table extraction over the copy-pasted per-type closure families (tag agreement between the dispatch key and every Value::U test / FeelType::U construction reached), classification-table check, must-call (coerced) and loop-shape rules",
-      "Static rule checking: every `match` arm keyed by a simple FEEL type (a FeelType::K pattern or its typeRef name) in model-evaluator's builders - 7 families, 56 arms, following the per-type builder function each arm calls and its closure - may only test the value for Value::K and build FeelType::K; each family covers all eight simple kinds; the four defining facts of an item definition map to the ItemDefinitionType the specification gives (all 12 feasible combinations); decision, decision-service and knowledge-model results flow through FeelType::coerced with the declared output type (knowledge models via a function value carrying the result type, coerced at the three invocation sites); collection evaluators test for a list and check every item inside the loop, simple evaluators apply allowed values on the success path. Decides exactly the copy-slip the property describes; allowed-values semantics and values are not decided.",
+      "HIR table extraction over the copy-pasted per-type closure families (tag agreement between the dispatch key and every Value::U test / FeelType::U construction reached), classification-table check, must-call (coerced), result-sink and loop-shape rules",
+      "Static rule checking: every `match` arm keyed by a simple FEEL type (a FeelType::K pattern or its typeRef name) in model-evaluator's builders - 7 families, 56 arms, following the per-type builder function each arm calls and its closure - may only test the value for Value::K and build FeelType::K; each family covers all eight simple kinds; the four defining facts of an item definition map to the ItemDefinitionType the specification gives (all 12 feasible combinations); decision, decision-service and knowledge-model results flow through FeelType::coerced with the declared output type (knowledge models via a function value carrying the result type, coerced at the three invocation sites); every write into the caller's output context by a decision / decision-service evaluator carries the result of coerced(); collection evaluators test for a list, check every item inside the loop and return null from inside the loop for a failing item, simple evaluators apply allowed values on the success path. Decides exactly the copy-slip the property describes; allowed-values semantics and values are not decided.",
       "Trusts rustc's HIR. Kind names are matched between Value and FeelType variants by name (same vocabulary in dmntk_feel); typeRef names are the TCK spellings listed in props/c11.py.",
       "DESIGN.md §3 C11")
 
 
 claim("C05", "other",
-      "whole-program call graph over MIR + panic-site inventory with guard-discharge rules (dominating-comparison facts, interval analysis, family rules with machine-checked side conditions), audited-site table with required guards, SCC recursion classification, exhaustive LALR driver index proof",
-      "Totality as a reachability question: every panic-capable construct (MIR Assert for bounds / overflow / division - counted in both build modes -, calls to APIs documented to panic, explicit panics) reachable from the six parser entry points and the evaluator's public functions (quick: ~1060 bodies, ~445 sites; thorough adds result rendering and every pub fn of feel-evaluator) must be discharged by a local proof over the MIR (len/index/variant guards on the same places, interval analysis of widening arithmetic, constant folding, bounded counters), by a family rule (lexer position counter, parser value-stack depth from the grammar, Scope's RefCell re-entrancy, bison driver indices proved by exhaustive enumeration of all 282 x 61 table cells), or by an audited entry written after reading the code whose recorded guards must still dominate the site; anything else is a violation naming file:line and the call path. Call-graph cycles must be structural on an owned tree (checked on argument provenance) - the one exception, recursion through user function values, is a listed known finding (stack overflow on a deeply recursive FEEL function). Ten panics found this way were repaired with fix: commits.",
-      "May-analysis: an alarm means no proof and no audit. Trusts the panicking-API table for std/chrono/regex (external callees not in it are assumed total and counted in the evidence), the call graph (dyn calls by signature, std callbacks by trait), and the 115 audited entries (each with its reason and required guards in tables/audited_sites.json). Not decided: stack depth in bytes for nesting 200, termination of data-dependent loops (lexer, FeelIterator), time limits.",
+      "whole-program call graph over MIR + panic-site inventory with guard-discharge rules (dominating-comparison facts, interval analysis, family rules with machine-checked side conditions), audited-site table with required guards, SCC recursion classification, exhaustive LALR driver index proof, lexer loop-progress rule (path-sensitive over the scanner's state variable)",
+      "Totality as a reachability question: every panic-capable construct (MIR Assert for bounds / overflow / division - counted in both build modes -, calls to APIs documented to panic, explicit panics) reachable from the six parser entry points and the evaluator's public functions (quick: ~1060 bodies, ~445 sites; thorough adds result rendering and every pub fn of feel-evaluator) must be discharged by a local proof over the MIR (len/index/variant guards on the same places, interval analysis of widening arithmetic, constant folding, bounded counters), by a family rule (lexer position counter, parser value-stack depth from the grammar, Scope's RefCell re-entrancy, bison driver indices proved by exhaustive enumeration of all 282 x 61 table cells), or by an audited entry written after reading the code whose recorded guards must still dominate the site; anything else is a violation naming file:line and the call path. Call-graph cycles must be structural on an owned tree (checked on argument provenance) - the one exception, recursion through user function values, is a listed known finding (stack overflow on a deeply recursive FEEL function). Termination of the scanner: in every loop of a Lexer method each cycle advances the cursor, steps an iterator or counts down (MIR cycle analysis; the name state machine is explored with its constant state variable and its pure predicates tracked). Ten panics found this way were repaired with fix: commits.",
+      "May-analysis: an alarm means no proof and no audit. Trusts the panicking-API table for std/chrono/regex (external callees not in it are assumed total and counted in the evidence), the call graph (dyn calls by signature, std callbacks by trait), and the 115 audited entries (each with its reason and required guards in tables/audited_sites.json). Not decided: stack depth in bytes for nesting 200, termination of data-dependent loops outside the lexer (FeelIterator ranges), time limits. Audited entries also pin the canonical form of the site's operands and the comparisons about them: a changed index computation or loop bound voids the audit.",
       "DESIGN.md §3 C05, §2.4 G1/G2/G8")
 
 claim("C12", "other",
-      "the C05 panic-site inventory (G1) and recursion classification (G2) from dmntk_model::parse, ModelEvaluator::new / evaluate_* and every public Workspace operation; reference-following recursion detection on the registries; write-lock self-deadlock rule",
+      "the C05 panic-site inventory (G1) and recursion classification (G2) from dmntk_model::parse, ModelEvaluator::new / evaluate_* and every public Workspace operation; reference-following recursion detection on the registries; write-lock self-deadlock rule; tuple-component guard facts for classification matches",
       "Same machinery as C05 with the model-level entry points (~1530 reachable bodies, ~450 sites): every reachable panic-capable site is discharged, audited or known. Reference-following recursion: every registry lookup function (DecisionEvaluator::evaluate, BusinessKnowledgeModelEvaluator::evaluate, DecisionServiceEvaluator::evaluate, the three item-definition evaluators, bring_knowledge_requirements_into_context) that lies on a call-graph cycle not passing through a generic FEEL evaluator call is reported: the pinned tree has no requirement-cycle detection, so all seven are listed as known findings, each with a witness model under known_findings_witnesses/ that makes the real code overflow its stack. While ModelEvaluator::new holds the write lock of a registry, the build it calls provably never locks the same registry again (8 acquisitions). Three index panics on malformed decision tables were repaired with a fix: commit.",
       "Same trusted base as C05. roxmltree is a leaf assumed total on arbitrary text. The seven reference cycles are one missing validation pass (requirement / typeRef cycle detection), not repaired because it is a new pass over three relations rather than a local patch.",
       "DESIGN.md §3 C12, §2.4 G1/G2/G5")
 claim("C19", "other",
-      "panic-site inventory (G1) over everything reachable from dmntk_recognizer's scan / Recognizer::recognize / builder::build with dominating-guard discharge rules and a per-site audited table; canvas-grid immutability rule on resolved MIR calls",
-      "Decides the 'never a panic' clause only. All ~236 panic-capable sites (index, unwrap, checked arithmetic, Vec::remove) reachable from the recogniser's entry points are enumerated from MIR; each is discharged by a dominating check, or audited against one of three stated invariants (canvas = fixed rectangle after scan(); plane = non-empty rectangle after finalize(); builder sizes validated by validate_size()). The canvas invariant's side condition (no Canvas method pushes/inserts/removes on the grid) is machine-checked with a positive control on scan(). Two real panics (ragged plane in pivot(), rule-number scan leaving the plane) were repaired with a fix: commit.",
+      "panic-site inventory (G1) over everything reachable from dmntk_recognizer's scan / Recognizer::recognize / builder::build with dominating-guard discharge rules and a per-site audited table; canvas-grid immutability rule on resolved MIR calls; cross-path agreement of the fields assigned by recognize_orientation",
+      "Decides the 'never a panic' clause only. All ~236 panic-capable sites (index, unwrap, checked arithmetic, Vec::remove) reachable from the recogniser's entry points are enumerated from MIR; each is discharged by a dominating check, or audited against one of three stated invariants (canvas = fixed rectangle after scan(); plane = non-empty rectangle after finalize(); builder sizes validated by validate_size()). The canvas invariant's side condition (no Canvas method pushes/inserts/removes on the grid) is machine-checked with a positive control on scan(). Audited entries pin the site's operand computation and the comparisons about its operands (loop bounds included). One necessary condition of the fidelity clause is decided too: every successful exit of recognize_orientation assigns the same fields (hit policy, orientation, rule count). Two real panics (ragged plane in pivot(), rule-number scan leaving the plane) were repaired with a fix: commit.",
       "The audited reasons are human arguments, recorded per site and keyed by function, kind and occurrence, so any new or moved panic-capable site is reported. Recognition fidelity (same table as drawn / same result as the XML form) depends on run-time geometry and is not decided.",
       "DESIGN.md §3 C19, §2.4 G1")
 
